@@ -23,7 +23,10 @@ def _universe(workdir, names):
 def _one(arg):
     workdir, names, e2fsck, env, cid = arg
     u = _universe(workdir, names)
-    case = u.case(cid)
+    case = u.case(cid) if cid >= 0 else u.directed(-cid - 1)
+    if case is None:
+        return {"cid": cid, "cls": "none", "image": "-", "descr": [], "rc1": None, "rc2": None, "codes1": [],
+                "codes2": [], "timed_out": False, "sig1": None, "out2": ""}
     img = os.path.join(workdir, "c%d.img" % cid)
     fsckpair.materialise(case, u.paths[case.image], img)
     r = fsckpair.repair_pair(e2fsck, env, img, workdir, "c%d" % cid)
@@ -83,6 +86,9 @@ def main(tier, seed, replay=None, scale=1.0):
                 ids = sorted(rng.sample(range(UNIVERSE), n))
         for nme in names:
             zoo.corpus_image(nme, w.dir)
+        if not replay and not os.environ.get("VERIF_CIDS"):
+            # directed cases (negative ids): the largest directory of every image wiped, two ways
+            ids = [-(k + 1) for k in range(2 * len(names))] + ids
         items = [(w.dir, names, b.tool("e2fsck"), env, cid) for cid in ids]
         results = run.pmap(_one, items, chunksize=8)
         for r in results:
